@@ -1302,8 +1302,24 @@ fn extract_bash_commands(markdown: &str) -> Vec<(usize, String)> {
     out
 }
 
+/// Whitespace-separated words of a shell line; the control operators `;`, `|`, `||`, `&`
+/// and `&&` are split off even when glued to a word (`agentpack update;agentpack lock`).
+fn shell_words(line: &str) -> Vec<String> {
+    let mut spaced = String::with_capacity(line.len() + 8);
+    for c in line.chars() {
+        if matches!(c, ';' | '|' | '&') {
+            spaced.push(' ');
+            spaced.push(c);
+            spaced.push(' ');
+        } else {
+            spaced.push(c);
+        }
+    }
+    spaced.split_whitespace().map(str::to_string).collect()
+}
+
 fn extract_agentpack_invocations(line: &str) -> Vec<Vec<String>> {
-    let tokens: Vec<&str> = line.split_whitespace().collect();
+    let tokens = shell_words(line);
     if tokens.is_empty() {
         return Vec::new();
     }
@@ -1311,13 +1327,13 @@ fn extract_agentpack_invocations(line: &str) -> Vec<Vec<String>> {
     let mut out = Vec::new();
     let mut i = 0;
     while i < tokens.len() {
-        if is_agentpack_token(tokens[i]) {
+        if is_agentpack_token(&tokens[i]) {
             let start = i + 1;
             let mut end = start;
-            while end < tokens.len() && !is_shell_separator(tokens[end]) {
+            while end < tokens.len() && !is_shell_separator(&tokens[end]) {
                 end += 1;
             }
-            let argv: Vec<String> = tokens[start..end].iter().map(|s| s.to_string()).collect();
+            let argv: Vec<String> = tokens[start..end].to_vec();
             if !argv.is_empty() {
                 out.push(argv);
             }
